@@ -198,6 +198,70 @@ def negativeSub : List Char → List Char
     else '-' :: negativeSub (c :: r)
   | c :: rest => c :: negativeSub rest
 
+example : Tables.negative_base_pattern =
+    "(?<![\\d.][eE])-((?:\\d+\\.?\\d*|\\.\\d+)(?:[eE][+-]?\\d+)?\\s*\\^)" := by decide
+example : Tables.subOrder = ["negative_pattern", "negative_base_pattern", "non_unary_op_pattern"] := by decide
+
+/-- consume a maximal run of digits: (number consumed, rest) -/
+def spanDigits' : List Char → Nat × List Char
+  | [] => (0, [])
+  | c :: r => if isReDigit c then let (n, rest) := spanDigits' r; (n + 1, rest) else (0, c :: r)
+
+/-- `(?:[eE][+-]?\d+)?` at the head (greedy; the group is skipped when it cannot match): the rest -/
+def skipExponent : List Char → List Char
+  | [] => []
+  | c :: r =>
+    if c == 'e' || c == 'E' then
+      let r' := match r with
+        | '+' :: t => t
+        | '-' :: t => t
+        | _ => r
+      let (n, rest) := spanDigits' r'
+      if n > 0 then rest else c :: r
+    else c :: r
+
+/-- number of characters `(?:\d+\.?\d*|\.\d+)(?:[eE][+-]?\d+)?\s*\^` matches at the head, if it matches (every
+quantifier is followed by characters outside its own class, so the greedy match is the only one) -/
+def matchNumberCaret (s : List Char) : Option Nat :=
+  let (n1, r1) := spanDigits' s
+  let afterMantissa : Option (List Char) :=
+    if n1 > 0 then
+      match r1 with
+      | '.' :: r2 => some (spanDigits' r2).2
+      | _ => some r1
+    else
+      match s with
+      | '.' :: r2 => let (n2, r3) := spanDigits' r2; if n2 > 0 then some r3 else none
+      | _ => none
+  match afterMantissa with
+  | none => none
+  | some r =>
+    match (skipExponent r).dropWhile isReSpace with
+    | '^' :: rest => some (s.length - rest.length)
+    | _ => none
+
+/-- the lookbehind `(?<![\d.][eE])`: the two characters before the `-` -/
+def lookbehindBlocks (p2 p1 : Option Char) : Bool :=
+  match p2, p1 with
+  | some a, some b => (isReDigit a || a == '.') && (b == 'e' || b == 'E')
+  | _, _ => false
+
+/-- `negative_base_pattern.sub(negative_base_repl, s)`: leftmost non-overlapping matches of `-` (not preceded by the
+mantissa-and-`e` of a float literal) followed by a number and `^`.  Arguments: characters of the current match still
+to be skipped, the two characters before the current position, the rest of the input -/
+def negativeBaseGo : Nat → Option Char → Option Char → List Char → List Char
+  | _, _, _, [] => []
+  | skip + 1, _, p1, c :: r => negativeBaseGo skip p1 (some c) r
+  | 0, p2, p1, c :: r =>
+    if c == '-' && !lookbehindBlocks p2 p1 then
+      match matchNumberCaret r with
+      | some n => expandRepl (r.take n) negative_base_repl.toList ++ negativeBaseGo n p1 (some c) r
+      | none => c :: negativeBaseGo 0 p1 (some c) r
+    else c :: negativeBaseGo 0 p1 (some c) r
+
+/-- `negative_base_pattern.sub(negative_base_repl, s)` -/
+def negativeBaseSub (s : List Char) : List Char := negativeBaseGo 0 none none s
+
 /-- the character class `[*/^()]` of `non_unary_op_pattern` -/
 def isNonUnaryOp (c : Char) : Bool := c == '*' || c == '/' || c == '^' || c == '(' || c == ')'
 
@@ -224,7 +288,7 @@ def tokenizeChars (s : List Char) : Except String (List (List Char)) :=
   if bad_tokens.any (fun b => containsSub b.toList s) then throw s!"RuntimeError: {MSG_INF_COMPLEX}"
   else
     let s1 := replacements.foldl (fun acc (p : String × String) => pyReplace p.1.toList p.2.toList acc) s
-    let s2 := negativeSub s1
+    let s2 := negativeBaseSub (negativeSub s1)
     let toks := pySplit split_sep.toList (nonUnarySub s2)
     pure ((toks.filter (fun t => !t.isEmpty)).map lowerAscii)
 
